@@ -8,9 +8,13 @@ import (
 	"fmt"
 	"io"
 	"math"
+	"os"
+	"path/filepath"
 	"sort"
 	"strings"
+	"syscall"
 	"testing"
+	"time"
 
 	shared "github.com/aquilax/hranoprovod-cli/v3"
 	"github.com/aquilax/hranoprovod-cli/v3/parser"
@@ -239,6 +243,35 @@ func c04CLI(c c04Case, want []vPRec, text string, ctx *vCtx) *vFailure {
 		}
 		if !vNumClose(g[2], vRat(w[2]), 2, nil) {
 			return vFailf("csv database row %d (%q): value %s is not %s at two decimals", i, w[1], g[2], w[2])
+		}
+	}
+	if len(text)%3 == 0 && len(text) < 60000 {
+		// the same content through a named pipe (the real binary: one process, one reader): what the file says does not
+		// depend on the kind of file it is
+		fifo := filepath.Join(vScratchDir(), "c04-fifo")
+		_ = os.Remove(fifo)
+		if err := syscall.Mkfifo(fifo, 0o644); err != nil {
+			vFault("mkfifo: %v", err)
+		}
+		done := make(chan struct{})
+		go func() {
+			defer close(done)
+			f, err := os.OpenFile(fifo, os.O_WRONLY, 0)
+			if err != nil {
+				return
+			}
+			_, _ = f.WriteString(text)
+			f.Close()
+		}()
+		b := vRunBin(vInvocation{Args: []string{"-d", fifo, "csv", "database"}}, 30*time.Second)
+		ctx.Run(1)
+		if f, err := os.OpenFile(fifo, os.O_RDONLY|syscall.O_NONBLOCK, 0); err == nil { // unblock the writer if nobody read
+			f.Close()
+		}
+		<-done
+		ctx.Label("cli-through-named-pipe")
+		if b.Failed || b.Stdout != r.Stdout {
+			return vFailf("csv database of the same content through a named pipe: failed=%v (%s)\n%s\n--- from the regular file:\n%s", b.Failed, vTrunc(b.Stderr, 300), vTrunc(b.Stdout, 1500), vTrunc(r.Stdout, 1500))
 		}
 	}
 	if c.IsLog {
